@@ -84,6 +84,10 @@ pub struct SctlModel<T> {
     pub aux: Ghost<Seq<int>>,
     /// serial the next `new_observer` will hand out (serials are never reused: every registered serial is below it)
     pub next_serial: Ghost<int>,
+    /// single-upstream discipline (retry, retry_when, on_error_resume_next): a unit that requires it may subscribe a further upstream
+    /// only while none is registered - the failed attempt is given up BEFORE the next one is brought up, so that the completion of
+    /// the new attempt is not held back by the dead one.  No method changes the flag.
+    pub single: Ghost<bool>,
 }
 
 /// an Observable value held by an operator (only its identity matters to the contracts)
@@ -109,6 +113,7 @@ impl<T> SctlModel<T> {
         &&& self.quits@ == pre.quits@
         &&& self.aux@ == pre.aux@
         &&& self.next_serial@ == pre.next_serial@
+        &&& self.single@ == pre.single@
     }
 
     #[verifier::external_body]
@@ -123,7 +128,7 @@ impl<T> SctlModel<T> {
             final(self).wf(),
             final(self).quits@ == old(self).quits@,
             final(self).aux@ == old(self).aux@,
-            final(self).next_serial@ == old(self).next_serial@,
+            final(self).next_serial@ == old(self).next_serial@, final(self).single@ == old(self).single@,
             old(self).sub@ ==> final(self).out@ == old(self).out@.push(Ev::N(x)),
             old(self).sub@ && !old(self).quits@ ==> final(self).sub@ && final(self).ups@ == old(self).ups@,
             old(self).sub@ && final(self).sub@ ==> final(self).ups@ == old(self).ups@,
@@ -141,7 +146,7 @@ impl<T> SctlModel<T> {
             final(self).ups@ =~= Set::<int>::empty(),
             final(self).quits@ == old(self).quits@,
             final(self).aux@ == old(self).aux@,
-            final(self).next_serial@ == old(self).next_serial@,
+            final(self).next_serial@ == old(self).next_serial@, final(self).single@ == old(self).single@,
     { unimplemented!() }
 
     #[verifier::external_body]
@@ -151,7 +156,7 @@ impl<T> SctlModel<T> {
             final(self).wf(),
             final(self).quits@ == old(self).quits@,
             final(self).aux@ == old(self).aux@,
-            final(self).next_serial@ == old(self).next_serial@,
+            final(self).next_serial@ == old(self).next_serial@, final(self).single@ == old(self).single@,
             old(self).sub@ && old(self).ups@.remove(*serial as int) =~= Set::<int>::empty() ==> {
                 &&& final(self).out@ == old(self).out@.push(Ev::C)
                 &&& !final(self).sub@
@@ -176,7 +181,7 @@ impl<T> SctlModel<T> {
             final(self).ups@ =~= Set::<int>::empty(),
             final(self).quits@ == old(self).quits@,
             final(self).aux@ == old(self).aux@,
-            final(self).next_serial@ == old(self).next_serial@,
+            final(self).next_serial@ == old(self).next_serial@, final(self).single@ == old(self).single@,
     { unimplemented!() }
 
     #[verifier::external_body]
@@ -189,7 +194,7 @@ impl<T> SctlModel<T> {
             final(self).ups@ =~= old(self).ups@.remove(*serial as int),
             final(self).quits@ == old(self).quits@,
             final(self).aux@ == old(self).aux@,
-            final(self).next_serial@ == old(self).next_serial@,
+            final(self).next_serial@ == old(self).next_serial@, final(self).single@ == old(self).single@,
     { unimplemented!() }
 
     /// `E.inner_subscribe(self.new_observer(a, b, c))` inside a handler (rule R7'): a fresh upstream observer (serial not used
@@ -199,8 +204,10 @@ impl<T> SctlModel<T> {
     #[verifier::external_body]
     pub fn subscribe_inner(&mut self, o: ObservableModel)
         requires old(self).wf(), old(self).sub@,
+            old(self).single@ ==> old(self).ups@ =~= Set::<int>::empty(),
         ensures
             final(self).wf(),
+            final(self).single@ == old(self).single@,
             final(self).aux@ == old(self).aux@.push(o.id as int),
             final(self).next_serial@ > old(self).next_serial@,
             // only serials handed out from now on can be new; everything registered before is either still there or gone
@@ -220,7 +227,7 @@ impl<T> SctlModel<T> {
             final(self).ups@ =~= Set::<int>::empty(),
             final(self).quits@ == old(self).quits@,
             final(self).aux@ == old(self).aux@,
-            final(self).next_serial@ == old(self).next_serial@,
+            final(self).next_serial@ == old(self).next_serial@, final(self).single@ == old(self).single@,
     { unimplemented!() }
 }
 
